@@ -256,10 +256,17 @@ impl Check for C21 {
         "case = random accepted ll(k) or lalr(1) grammar (hostile names, comments); three-way comparison analysis result <-> export model <-> tables parsed from the generated source: lookahead automata (prod0, transitions, k) literally equal between export and source and language-equal to the analysis tries (C07), productions (lhs, right-hand side symbol kinds and indices) equal to the transformed Cfg, LR actions and gotos per state equal as maps to the analysis table, non-terminal and terminal name tables, skip lists, start symbol index, scanner modes (patterns, lookaheads, order, transitions) equal to the export scanner section and the GrammarConfig; every index within its table; MAX_K = largest automaton k; the trim / recovery / depth options requested appear in the generated parse function. Evaluations = grammars compared. Non-trivial = grammar with >= 10 productions or an LR table with >= 8 states; distinct by grammar text".into()
     }
     fn strategy(&self, tier: Tier) -> BoxedStrategy<TextCase> {
-        mixed_strategy(tier, 0, false)
+        // plain generated grammars plus fully annotated ones (quoting styles, lookaheads, scanner
+        // states, %on / %skip) with few terminals so that equal texts with different lookaheads meet
+        let ann = |lr: bool| {
+            let mut p = if lr { GenParams::lr() } else { GenParams::ll() };
+            p.max_t = 3;
+            super::gen_props::annotated(p, lr).prop_map(|c| TextCase { base: ParseCase { grammar: c.grammar, max_k: 3, inputs: vec![] }, texts: vec![] })
+        };
+        proptest::strategy::Union::new(vec![mixed_strategy(tier, 0, false), ann(false).boxed(), ann(true).boxed()]).boxed()
     }
     fn cases(&self, tier: Tier) -> u32 {
-        tier.pick(5000, 100000)
+        tier.pick(6000, 100000)
     }
     fn run(&self, case: &TextCase, st: &mut Stats) -> Verdict {
         let g = &case.base.grammar;
